@@ -50,6 +50,7 @@ func TestVerif(t *testing.T) {
 		"C05": C05{},
 		"C09": C09{},
 		"C11": C11{},
+		"C12": C12{},
 		"C14": C14{},
 		"C15": C15{},
 		"C16": C16{},
